@@ -181,8 +181,8 @@ fn dyadic_history(r: &mut StdRng, tr: &mut Tr, len: usize, extreme: Option<i32>)
             json!({"k": "d", "op": "flags", "a": a + 1, "res": "ok", "approx": regs[a].approx(), "sign": regs[a].sign()})
         } else if c >= 113 {
             // Display / Debug: observation only (the property fixes no text format)
-            match guarded(|| (format!("{}", regs[a]), format!("{:?}", regs[a]))) {
-                Ok((s1, s2)) => json!({"k": "d", "op": "display", "a": a + 1, "res": "ok", "len": s1.len(), "tilde": s2.ends_with('~')}),
+            match guarded(|| format!("{} {:?}", regs[a], regs[a]).len()) {
+                Ok(_) => json!({"k": "d", "op": "display", "a": a + 1, "res": "ok"}),
                 Err(m) => json!({"k": "d", "op": "display", "a": a + 1, "res": "panic", "msg": m}),
             }
         } else if c < 67 {
@@ -532,8 +532,8 @@ fn scalar_history(r: &mut StdRng, tr: &mut Tr, len: usize, extreme: Option<i32>)
             }
         } else {
             // Display / Debug: observation only (the property fixes no text format)
-            match guarded(|| (format!("{}", regs[a]), format!("{:?}", regs[a]))) {
-                Ok((s1, s2)) => json!({"k": "s", "op": "display", "a": a + 1, "res": "ok", "len": s1.len(), "dlen": s2.len()}),
+            match guarded(|| format!("{} {:?}", regs[a], regs[a]).len()) {
+                Ok(_) => json!({"k": "s", "op": "display", "a": a + 1, "res": "ok"}),
                 Err(m) => json!({"k": "s", "op": "display", "a": a + 1, "res": "panic", "msg": m}),
             }
         };
